@@ -2,16 +2,16 @@
 configurations; second generation reproduces the first character for character."""
 import re
 
-from ..common import run_model, pmap, unesc
+from ..common import run_model, pmap, unesc, req
 from ..pyparse import py_parse_obj, dump, py_gen_text, gen_req, py_gen
 from ..findings import still_fails
 from .. import progs, corpus
 
 ID = "C07"
 LEAN_MODULES = ["PycModel.Properties.C07"]
-NAMESPACES = ["PycModel.C07", "PycModel.Tables"]
-REQUIRED_THEOREMS = ["PycModel.Tables.impl_gen_prec_is_parser_prec", "PycModel.Tables.model_gen_precedence",
-                     "PycModel.Tables.model_gen_visit_methods"]
+NAMESPACES = ["PycModel.C07", "PycModel.Tables", "PycModel.TablesG"]
+REQUIRED_THEOREMS = ["PycModel.TablesG.impl_gen_prec_is_parser_prec", "PycModel.TablesG.model_gen_precedence",
+                     "PycModel.TablesG.model_gen_visit_methods"]
 LEVEL = "proof"
 TRUSTED = ["Generator.lean is a hand-written model of c_generator.py, tied by differential runs (text equality on every program of the pool, both configurations)"]
 ASSUMPTIONS = []
@@ -68,10 +68,13 @@ def run(ctx):
     texts = list(dict.fromkeys(texts + muts))
     ctx.rule(progs.RULE + "; plus accepted token-level mutants of a sample; both generator configurations; distinct by text, counted when accepted")
     res = pmap(roundtrip, texts)
-    # model: generated text must equal the real generator's text on every accepted program
+    # generator model vs real generator *on the same tree*: the real AST is dumped and handed to the
+    # Lean generator model, so this correspondence does not depend on the parser (model or real)
     acc = [t for t, r in zip(texts, res) if r != "skip"]
-    md = run_model([gen_req(t, "") for t in acc]) if ctx.model_available else None
-    pg = pmap(_pygen, acc) if md is not None else None
+    pg = pmap(_pygen_and_dump, acc) if ctx.model_available else None
+    md = run_model([req("genast", d) for (_, d) in pg]) if pg is not None else None
+    if pg is not None:
+        pg = [g for (g, _) in pg]
     keys = set()
     j = 0
     for t, r in zip(texts, res):
@@ -88,8 +91,11 @@ def run(ctx):
     ctx.extra["accepted_programs"] = len(acc)
 
 
-def _pygen(t):
-    return py_gen(t, "")
+def _pygen_and_dump(t):
+    r = py_parse_obj(t, "")
+    if r[0] != "OK":
+        return ("-", "~")
+    return ("OK\t" + py_gen_text(r[1], False) + "\t" + py_gen_text(r[1], True), dump(r[1], False))
 
 
 def replay(ctx, payload):
